@@ -36,7 +36,7 @@ PROB = {
     'google': {'xref': '`nopeX`', 'param': 'Args:\n    zzX: nothing'},
     'numpy': {'xref': '`nopeX`', 'param': 'Parameters\n----------\nzzX: int\n    nothing'},
 }
-POSITIONS = ['p1l1', 'p1l2', 'p2', 'li', 'fb', 'sections', 'after-linesep']
+POSITIONS = ['p1l1', 'p1l2', 'p2', 'li', 'fb', 'sections', 'after-linesep', 'directive-body', 'directive-arg', 'directive-body-line2']
 OWNERS = ['module', 'class', 'function', 'method', 'attribute', 'inherited', 'reexported', 'classfield', 'classfield+inline', 'typefield+inline', 'ivar-two-sites', 'attr-redefined', 'classtypefield', 'modvarfield', 'modtypefield', 'class-redefined', 'function-redefined', 'class-redefined-both-bad', 'inherited-rendered-first']
 # (text on the opening line, leading lines below the quotes)
 LAYOUTS: List[Tuple[bool, List[str]]] = [(True, []), (False, []), (False, ['']), (False, ['', '']), (False, ['WS']), (False, ['TRAIL'])]
@@ -68,6 +68,15 @@ def body_for(fmt: str, kind: str, pos: str) -> Optional[Tuple[List[str], int, in
         if fmt in ('google', 'numpy'):
             return None
         return ['Para one.', '', f'{li_ind}- item one', f'{li_ind}- item two ' + p + ' end', '', 'After.'], 3, 3
+    if pos.startswith('directive'):
+        # reST version directives (also reached from google / numpy): problem in the inline argument, in the first and in the second line of the body
+        if fmt == 'epytext':
+            return None
+        if pos == 'directive-arg':
+            return ['Para one.', '', '.. versionchanged:: 1.2 now ' + p + ' end', '', 'After.'], 2, 2
+        if pos == 'directive-body':
+            return ['Para one.', '', '.. deprecated:: 1.0', '   use ' + p + ' instead', '', 'After.'], 3, 2
+        return ['Para one.', '', '.. note::', '   first line of the note', '   second line ' + p + ' end', '', 'After.'], 4, 2
     if pos == 'after-linesep':
         # characters that some text APIs treat as line boundaries (U+2028, U+2029, NEL, FS/GS/RS, VT, FF) but that do not end a physical source line
         return ['Para one with odd \u2028 separators \u2029 and \x85 and \x1c \x1d \x1e here.', '', 'Para two ' + p + ' end.'], 2, 2
